@@ -86,6 +86,11 @@ func (p *parser) parse() (pq *proto.Query, err error) {
 
 	}
 
+	// the query must be the whole input.
+	if p.peek().typ != itemEOF {
+		p.errorf("unexpected %s after end of query", p.next())
+	}
+
 	pq = &proto.Query{
 		Expr:    expr,
 		GroupBy: groupBy,
